@@ -161,7 +161,7 @@ pub fn run(tier: Tier, seed: u64) -> i32 {
     let mut stats = engine::run_spec(&sp, tier, seed);
     let spf = Spec { id: "C05", rule: RULE, tape_len: 220, cases: tier.pick(16_000, 160_000), gen: gen_family, check: check_family, max_shrink_iters: 2000, shards: 16 };
     stats.merge(engine::run_spec(&spf, tier, seed ^ 0xfa5));
-    let sps = Spec { id: "C05", rule: RULE, tape_len: 700, cases: tier.pick(32, 320), gen: super::family::gen_soak, check: check_soak, max_shrink_iters: 60, shards: 16 };
+    let sps = Spec { id: "C05", rule: RULE, tape_len: 700, cases: tier.pick(32, 96), gen: super::family::gen_soak, check: check_soak, max_shrink_iters: 60, shards: 16 };
     stats.merge(engine::run_spec(&sps, tier, seed ^ 0x50a6));
     engine::run_regressions::<Any>("C05", check_any, &mut stats);
     let extra = crate::props::xproc::cross_process_tables(tier, seed, &mut stats);
